@@ -282,3 +282,21 @@ PROPERTIES["C13"] = {
         {"test": "TestC13KnownReversePrefix", "kind": "plain", "quick": 1, "thorough": 1},
     ],
 }
+
+PROPERTIES["C17"] = {
+    "level": "exploration",
+    "rule": "(a) rapid draws histories of transfers and admin messages; the reached state is exported through AppModule.ExportGenesis, must pass "
+            "ValidateGenesis, is initialised with InitGenesis into a branch whose orbiter store has NO keys, must re-export byte-identically, and "
+            "a fixed battery of probe transfers plus the exported state must behave identically on the original and on the re-imported state "
+            "(pause enforcement, parameter, statistics continuing from the same totals); thorough tier additionally boots a brand-new SimApp "
+            "through InitChain with the exported section. (b) rapid draws genesis documents directly over the genesis types: repeated paused "
+            "ids, boundary identifiers (max length, separators, NUL and non-UTF-8 bytes, non-canonical numbers), zero/negative amounts, nil "
+            "members, unknown enum numbers, duplicate entries; ValidateGenesis(doc) == nil => InitGenesis(doc) does not panic, and the resulting "
+            "state round-trips. Non-trivial = a state with >= 2 populated collections / an accepted non-default document; distinct by genesis JSON.",
+    "assumptions": COMMON_ASSUMPTIONS + ["a panic inside ValidateGenesis is not an acceptance: counted as an observation, not a violation"],
+    "tests": [
+        {"test": "TestC17RoundTrip", "quick": 400, "thorough": 40000},
+        {"test": "TestC17Documents", "quick": 5000, "thorough": 500000},
+        {"test": "TestC17FreshChain", "quick": 0, "thorough": 480, "tiers": ["thorough"]},
+    ],
+}
